@@ -71,7 +71,8 @@ func init() {
 func prefixSweep() []*pj.ConvCase {
 	sub := &pj.Msg{Name: "Sub", Fields: []*pj.Field{pj.F("s", 1, pj.String)}}
 	t := &pj.Msg{Name: "T", Fields: []*pj.Field{pj.F("s", 1, pj.String), pj.FM("sub", 2, "Sub"), pj.F("m", 3, pj.String).MapOf(pj.String),
-		pj.F("pf", 4, pj.Fixed64).Repeated(), pj.FM("subs", 5, "Sub").Repeated(), pj.F("after", 6, pj.Int32)}}
+		pj.F("pf", 4, pj.Fixed64).Repeated(), pj.FM("subs", 5, "Sub").Repeated(), pj.F("after", 6, pj.Int32),
+		pj.F("by", 7, pj.Bytes), pj.F("bys", 8, pj.Bytes).Repeated(), pj.F("bm", 9, pj.Bytes).MapOf(pj.Int32)}}
 	f := &pj.File{Path: "main.proto", Pkg: pj.Pkg, Msgs: []*pj.Msg{sub, t}, Svcs: []*pj.Service{pj.OneMethodService("T", "T")}}
 	prog := &pj.Program{Name: "c13/prefix-sweep", Main: "main.proto", Files: []*pj.File{f}}
 	var out []*pj.ConvCase
@@ -82,7 +83,7 @@ func prefixSweep() []*pj.ConvCase {
 	for l := 16378; l <= 16390; l++ {
 		sizes = append(sizes, l)
 	}
-	for _, where := range []string{"string", "sub", "map-entry", "packed", "list-elem"} {
+	for _, where := range []string{"string", "sub", "map-entry", "packed", "list-elem", "bytes", "bytes-elem", "bytes-map-value"} {
 		for _, n := range sizes {
 			where, n := where, n
 			if where == "packed" && n%8 != 0 {
@@ -119,6 +120,22 @@ func prefixSweep() []*pj.ConvCase {
 						l := m.Mutable(fs.ByName("pf")).List()
 						for i := 0; i < n/8; i++ {
 							l.Append(protoreflect.ValueOfUint64(uint64(i) * 0x0101010101010101))
+						}
+					case "bytes", "bytes-elem", "bytes-map-value":
+						// n payload bytes (base64 text of every padding class around the boundaries)
+						pl := make([]byte, n)
+						for i := range pl {
+							pl[i] = byte(i*7 + 1)
+						}
+						switch where {
+						case "bytes":
+							m.Set(fs.ByName("by"), protoreflect.ValueOfBytes(pl))
+						case "bytes-elem":
+							l := m.Mutable(fs.ByName("bys")).List()
+							l.Append(protoreflect.ValueOfBytes(pl))
+							l.Append(protoreflect.ValueOfBytes([]byte{1}))
+						default:
+							m.Mutable(fs.ByName("bm")).Map().Set(protoreflect.ValueOfInt32(5).MapKey(), protoreflect.ValueOfBytes(pl))
 						}
 					case "list-elem":
 						l := m.Mutable(fs.ByName("subs")).List()
